@@ -71,7 +71,7 @@ macro_rules! checks {
             ("C13", c13::C13 { observer_arm: false }),
             ("C14", pairs::C14),
             ("C16", c16::C16),
-            ("C27", mchecks::C27),
+            ("C27", runner::Both { id: "C27", a: mchecks::C27, b: pairs::C27S, a_share: 7, rule: "Arm A (7/8): programs with nested JSR/JSRR/TRAP (including the OS's own nested traps), RET/JMP R7/RTI, unbalanced return and call sequences, interrupts at any depth, the public call_subroutine between steps; debug_frames on (2/3) and off; registered calling-convention and pass-by-register signatures (also re-registered mid-run). After every step frame_stack.len() equals the model's saturating depth and, with frames on, frames() equals the model's list entry-wise (caller, callee, kind, frame pointer, arguments; D8 exceptions). Core-state divergences are not reported here (they are C08's). Non-trivial: depth >= 2 and (a pop at depth 0 or an interrupt frame). Arm B (1/8): the same programs with flags.strict: a JSR/JSRR/JMP/RET/RTI that strict mode refuses entered no call and executed no return — frame depth and frame list length are what they were before the step. Non-trivial: >=1 refused call or return." }),
             ("C28", runner::Both { id: "C28", a: mchecks::C28, b: c13::C13 { observer_arm: true }, a_share: 6, rule: "Arm A (6/8): per-step exactness against RefLc3 (see C28 lockstep rule: read/written/modified sets per step_in, untracked host accesses in between). Arm B (2/8): accumulation — the observer after run/run_with_limit/run_while/step_over/step_out equals the union of the per-step observer sets of a twin simulator driven by step_in over the same boundaries, and is empty after being taken." }),
             ("C15", misc::C15),
             ("C17", tworld::TCheck(tworld::Prop::C17)),
